@@ -1,6 +1,7 @@
 package checks
 
 import (
+	"encoding/json"
 	"fmt"
 	"sort"
 	"strconv"
@@ -203,6 +204,53 @@ func c36Cases(ref JobResult) []chainCase {
 			}
 		}
 	}
+	// the ACL itself changes hands: governance gives pos/MaxValidators to A2. From the very next transaction on - in the
+	// same block or in the next one - A2 may change that parameter and the previous owner G may not.
+	if aclRaw := params["gov/acl"]; aclRaw != "" {
+		var acl struct {
+			Type  string                   `json:"type"`
+			Value []map[string]interface{} `json:"value"`
+		}
+		if err := json.Unmarshal([]byte(aclRaw), &acl); err == nil && len(acl.Value) > 0 {
+			for _, e := range acl.Value {
+				if e["acl_key"] == "pos/MaxValidators" {
+					e["address"] = caddr("A2").String()
+				}
+			}
+			nv, _ := json.Marshal(acl)
+			handover := tx("gov_param", "G", "from", "G", "key", "gov/acl", "value", string(nv))
+			for _, signer := range []string{"G", "A2", "D"} {
+				for _, same := range []bool{true, false} {
+					signer, same := signer, same
+					ch := tx("gov_param", signer, "from", signer, "key", "pos/MaxValidators", "value", `"7"`)
+					ref, sub := []BlockSpec{blk(handover)}, []BlockSpec{blk(handover, ch)}
+					if !same {
+						ref, sub = []BlockSpec{blk(handover), {}}, []BlockSpec{blk(handover), blk(ch)}
+					}
+					cases = append(cases, chainCase{Name: fmt.Sprintf("acl-handover/%s/by-%s", boolStr(same, "same-block", "next-block"), signer), Class: "acl-handover-" + boolStr(signer == "A2", "new-owner", "other"), Env: env, Want: []string{"balances"},
+						Ref: ref, Subject: sub,
+						Oracle: func(r, s JobResult) (string, string) {
+							if r.Blocks[0].Txs[0].Code != 0 {
+								return "harness:acl", fmt.Sprintf("the ACL change of the scenario was refused (code %d)", r.Blocks[0].Txs[0].Code)
+							}
+							before, after := obsStrMap(r, "params"), obsStrMap(s, "params")
+							d := mapDiff(before, after)
+							desc := fmt.Sprintf("the ACL owner hands pos/MaxValidators to A2; then (%s) %s asks for pos/MaxValidators = 7: result code %d, parameter store changes %v", boolStr(same, "same block", "next block"), signer, lastTx(s).Code, d)
+							if signer == "A2" {
+								if after["pos/MaxValidators"] != `"7"` && after["pos/MaxValidators"] != "7" {
+									return "new-acl-owner-refused", desc
+								}
+								return "", ""
+							}
+							if len(d) > 0 {
+								return "param-changed-by-non-owner", desc
+							}
+							return "", ""
+						}})
+				}
+			}
+		}
+	}
 	// a message that NAMES the owner as sender but is signed by somebody else (the recipient, an unrelated key):
 	// the DAO balance and every balance except possibly the signer's own fee must stay as they are
 	for _, action := range []string{"dao_transfer", "dao_burn"} {
@@ -255,6 +303,7 @@ func c37Cases() []chainCase {
 		{"feature-only-C", tx("gov_upgrade", "G", "from", "G", "height", "1", "version", "FEATURE", "features", "FEATC:"+h(25))},
 		{"feature-only-reschedule-A", tx("gov_upgrade", "G", "from", "G", "height", "1", "version", "FEATURE", "features", "FEATA:"+h(40))},
 		{"upgrade-B-dups", tx("gov_upgrade", "G", "from", "G", "height", h(60), "version", "0.12.0", "features", "FEATB:"+h(30)+"+FEATB:"+h(35)+"+AAA:"+h(5))},
+		{"upgrade-plain-no-features", tx("gov_upgrade", "G", "from", "G", "height", h(65), "version", "0.12.1", "features", "")},
 		{"by-stranger", tx("gov_upgrade", "A2", "from", "A2", "height", h(70), "version", "0.12.0", "features", "EVIL:"+h(1))},
 		{"malformed-feature", tx("gov_upgrade", "G", "from", "G", "height", "1", "version", "FEATURE", "features", "NOCOLON")},
 	}
@@ -301,7 +350,7 @@ func c37Cases() []chainCase {
 							sched[kv[0]] = kv[1]
 						}
 					}
-					if i == 4 {
+					if ups[i].name == "by-stranger" {
 						return "upgrade-by-non-owner-accepted", fmt.Sprintf("upgrade signed by a stranger was accepted in %v", names)
 					}
 				}
@@ -574,7 +623,7 @@ func init() {
 	})
 	register(&Check{ID: "C37", QuickBud: 110 * time.Second, ThorBud: 20 * time.Minute,
 		Run: func(c *ev.Ctx) {
-			c.Rule = "every sequence of 1..3 upgrade messages over {version upgrade with features, feature-only upgrade, feature-only re-schedule of an earlier feature, upgrade with duplicate feature names, upgrade signed by a stranger, malformed feature string}, each in its own block of the real application; afterwards one replica continues and one restarts from its databases: the stored feature list is sorted, duplicate-free and equals the shadow schedule (everything scheduled so far, later heights winning), the process activation table equals the schedule on both replicas, the stored upgrade and the derived codec heights are equal on both, and the following block gets the same app hash"
+			c.Rule = "every sequence of 1..3 upgrade messages over {version upgrade with features, version upgrade without features, feature-only upgrade, feature-only re-schedule of an earlier feature, upgrade with duplicate feature names, upgrade signed by a stranger, malformed feature string}, each in its own block of the real application; afterwards one replica continues and one restarts from its databases: the stored feature list is sorted, duplicate-free and equals the shadow schedule (everything scheduled so far, later heights winning), the process activation table equals the schedule on both replicas, the stored upgrade and the derived codec heights are equal on both, and the following block gets the same app hash"
 			runChainCases(c, "upgrade", c37Cases())
 			getPool().Close()
 		},
